@@ -26,12 +26,12 @@
    Environment contract of the underlying sinks (DESIGN.md section 10): a sink is created Idle; its
    Open() returns one pending result until the environment completes it (OpenDone); a failed open, a
    fault or Close() make it Closed for ever and complete the pending result; a Closed sink never
-   reports Open again; a fault sets the sink's on_faulted, to which the pool is subscribed exactly
+   reports Open again; an open sink may report Busy for a while (SetBusy); a fault sets the sink's on_faulted, to which the pool is subscribed exactly
    while the sink is its next_sink. *)
 From Scales Require Import Model.Base Model.RefCount Model.Shared.
 Local Open Scope nat_scope.
 
-Inductive sstate := SIdle | SOpen | SClosed.
+Inductive sstate := SIdle | SOpen | SBusy | SClosed.
 Inductive kind := KReq | KOpen.
 
 Record task := mkTask { t_id : nat; t_kind : kind; t_sink : nat }.   (* blocked in sinks[t_sink].Open().wait() *)
@@ -54,6 +54,7 @@ Inductive label :=
 | ClosePool                     (* pool.Close() *)
 | OpenDone (n : nat) (ok : bool)(* environment: the pending open of sink n completes *)
 | Fault (n : nat)               (* environment: sink n fails *)
+| SetBusy (n : nat) (b : bool)  (* environment: the open sink n starts (true) / stops (false) reporting ChannelState.Busy *)
 | Resume (t : nat).             (* scheduler: waiting task t continues after its wait() *)
 
 Inductive obs :=
@@ -99,7 +100,7 @@ Definition get (s : st) (fail : bool) : st * gres * list obs :=
       match nth_error (sinks s) n with
       | Some SIdle => (s, GWait n, [OpenUnder n])
       | Some SClosed => create (set_next s None) fail
-      | Some SOpen => (s, GSink n, [])
+      | Some SOpen | Some SBusy => (s, GSink n, [])       (* branch "share": Busy is open and healthy *)
       | None => (s, GRaise, [])          (* next_sink is not a sink the provider made: unreachable (SingletonP.inv) *)
       end
   end.
@@ -154,8 +155,14 @@ Definition step (s : st) (l : label) : st * list obs :=
       end
   | Fault n =>
       match nth_error (sinks s) n with
-      | Some SIdle | Some SOpen => (set_sinks s (upd (sinks s) n SClosed), notify s n)
+      | Some SIdle | Some SOpen | Some SBusy => (set_sinks s (upd (sinks s) n SClosed), notify s n)
       | _ => (s, [])
+      end
+  | SetBusy n b =>
+      match nth_error (sinks s) n, b with
+      | Some SOpen, true => (set_sinks s (upd (sinks s) n SBusy), [])
+      | Some SBusy, false => (set_sinks s (upd (sinks s) n SOpen), [])
+      | _, _ => (s, [])
       end
   | Resume t =>
       match find_task t (waiting s) with
@@ -177,12 +184,12 @@ Definition step (s : st) (l : label) : st * list obs :=
       end
   end.
 
-(* SingletonPoolSink.state, as ChannelState numbers (Idle 1, Open 2, Closed 4) *)
+(* SingletonPoolSink.state, as ChannelState numbers (Idle 1, Open 2, Busy 3, Closed 4) *)
 Definition pool_state (s : st) : Z :=
   match next s with
   | None => 1%Z
   | Some n => match nth_error (sinks s) n with
-              | Some SIdle => 1%Z | Some SOpen => 2%Z | Some SClosed => 4%Z | None => 0%Z end
+              | Some SIdle => 1%Z | Some SOpen => 2%Z | Some SBusy => 3%Z | Some SClosed => 4%Z | None => 0%Z end
   end.
 
 Fixpoint run (s : st) (ls : list label) : st * list (list obs) :=
